@@ -144,6 +144,7 @@ theorem lock_changes_only_by (st : State) (op : Op) :
       · rename_i h; exact (callCfg_frame _ _ _ _ _ _ _ _ h).locked
       · rfl
   | getb sel σ inh => rfl
+  | getbq q σ inh => simp only [step]; split <;> rfl
   | addHook h => rfl
   | constant name valid v =>
     simp only [step]
